@@ -156,6 +156,8 @@ def run(rep):
                     variants.append((vn, cwd, args, [p], ()))
             variants.append(("rerun-over-own-output", None, ["./" + p], [p], ()))
             variants.append(("rerun-twice-over-own-output", None, ["./" + p], [p], ()))
+        for p in srt[:4]:  # an old derived.gen.go that is LONGER than the new output must not leave its tail behind
+            variants.append(("stale-longer-derived", None, ["./" + p], [p], ()))
         if "user" in ok and "amb2" in ok:
             variants.append(("with-importer-first", None, ["./user", "./amb2"], ["user", "amb2"], ()))
             variants.append(("with-importer-last", None, ["./amb2", "./user"], ["user", "amb2"], ()))
@@ -175,6 +177,10 @@ def run(rep):
             for attempt, limit in ((0, TIMEOUT * 2), (1, TIMEOUT * 6)):  # a timeout under machine load: once more, long limit
                 root = fresh(src, work, "v-%d-%s-%d-%d" % (abs(hash((name, cwd, tuple(args0)))) % 10 ** 8, name, i, attempt), drop)
                 args = [a.replace("ABS/", root + "/") for a in args0]
+                if name == "stale-longer-derived":
+                    with open(os.path.join(root, expect[0], DERIVED), "w") as f:
+                        f.write("// Code generated by goderive DO NOT EDIT.\n\npackage %s\n\n" % expect[0] +
+                                "".join("// deriveOld%d is left over from an earlier version of the sources.\nfunc deriveOld%d() {}\n\n" % (k, k) for k in range(2000)))
                 r = runs.goderive(binp, os.path.join(root, cwd) if cwd else root, args, timeout=limit)
                 for _ in range({"rerun-over-own-output": 1, "rerun-twice-over-own-output": 2}.get(name, 0)):
                     if r["rc"] == 0 and not r["timeout"]:  # the same invocation again, over the file that is now there
